@@ -415,3 +415,86 @@ def all_nodes(W):
             if hasattr(c, 'children') and not hasattr(c, 'apps'):
                 stack.append(c)
     return out
+
+
+def placements(A, nserv, symmetric=True):
+    import itertools
+    out = []
+    for p in itertools.product([None] + list(range(nserv)), repeat=A):
+        if symmetric:
+            first = [x for x in p if x is not None]
+            if first and first[0] != 0:
+                continue
+        out.append(p)
+    return out
+
+
+def ptag(pl):
+    return ''.join('p' if j is None else str(j) for j in pl)
+
+
+def evtag(ev):
+    return '_'.join(str(x) for x in ev if not isinstance(x, (dict, list)))
+
+
+def reach_branches(W):
+    S = W.S
+    for (_o, _s, _a, b) in W.log:
+        if b == 'fp:evict_put':
+            S.reach('eviction_put')
+        elif b == 'fp:restore_evicted':
+            S.reach('restored_after_eviction')
+        elif b == 'fp:restore_renew':
+            S.reach('restored_after_failed_renew')
+        elif b == '_handle_inactive_servers':
+            S.reach('removed_from_inactive_server')
+
+
+def c07_oracle(W, pre, placement, queues, queue_pre, tag=''):
+    """pre: {name: (server, state-of-server, flags)} captured before the cycle."""
+    import sys as _sys
+    S = W.S
+    after = {n: sa for (n, _sb, _eb, sa, _ea) in placement}
+    before = {n: sb for (n, sb, _eb, _sa, _ea) in placement}
+    for q in queues:
+        for pos, name in enumerate(q):
+            info = pre.get(name)
+            if info is None or info['server'] is None:
+                continue
+            app = W.cell.apps.get(name)
+            if app is None:
+                continue
+            if not info['server_up'] or info['blacklisted'] or info['renew']:
+                continue
+            if info['identity_invalid']:
+                continue
+            if app.final_rank == _sys.maxsize:
+                continue
+            if after.get(name) == info['server']:
+                continue
+            gained = [j for j in q[:pos]
+                      if after.get(j) is not None and
+                      after.get(j) != before.get(j)]
+            if not gained:
+                S.reach('displaced_without_cause')
+            S.check('C07:running_instance_displaced_for_nobody_ahead' + tag,
+                    bool(gained),
+                    {'app': name, 'was_on': info['server'],
+                     'now_on': after.get(name), 'queue': q})
+            S.reach('displaced_for_instance_ahead')
+
+
+def pre_info(W):
+    mem = W.cell.members()
+    out = {}
+    for name, app in W.cell.apps.items():
+        srv = mem.get(app.server) if app.server else None
+        grp = app.identity_group_ref
+        out[name] = {
+            'server': app.server if srv is not None else None,
+            'server_up': srv is not None and srv.state is W.sch.State.up,
+            'blacklisted': app.blacklisted, 'renew': app.renew,
+            'identity_invalid': (grp is not None and (
+                app.identity is None or app.identity >= grp.count)),
+        }
+    return out
